@@ -6,7 +6,7 @@
    are labels chosen by the caller: every theorem quantifies over all of them. *)
 From Coq Require Import NArith List Bool Permutation Sorted.
 From XV Require Import Base.Str Spec.GraphSpec Model.Graph Model.GraphCorr
-  Proofs.GraphBase Proofs.GraphScc Proofs.GraphTopo Proofs.GraphMisc Proofs.GraphPlan.
+  Proofs.GraphBase Proofs.GraphScc Proofs.GraphSccAlg Proofs.GraphTopo Proofs.GraphMisc Proofs.GraphPlan.
 Import ListNotations.
 
 (* 1. strongly connected components.  The partition into mutual-reachability classes is
@@ -26,17 +26,30 @@ Theorem C12_scc_check_sound :
 Proof. exact (scc_check_sound str_eqb str_eqb_eq). Qed.
 Print Assumptions C12_scc_check_sound.
 
-(* ... hence checked outputs agree whatever the iteration orders were.  PARTIAL: the
-   correctness of the path-based algorithm itself (scc_run always passes scc_check) is not
-   proved; it is established per run by evaluating scc_check (see design.d/C12.md). *)
-Theorem C12_scc_partition_perm_invariant_partial :
+(* ... and the path-based algorithm of utils/graphs.py is correct: whenever it returns, its
+   output satisfies the specification (components = mutual-reachability classes, emitted in
+   reverse topological order); it never runs out of fuel.  `vo` = iteration order of
+   set(edges): any list that covers the keys. *)
+Theorem C12_scc_run_correct :
+  forall E vo out, (forall k, In k (keys E) -> In k vo) ->
+    s_scc_run vo E = Ok out -> scc_spec (isvertex E) (edge str_eqb E) out.
+Proof. exact (scc_run_correct str_eqb str_eqb_eq). Qed.
+Print Assumptions C12_scc_run_correct.
+
+Theorem C12_scc_run_total : forall E vo, s_scc_run vo E <> OutOfFuel.
+Proof. exact (scc_run_fuel_sufficient str_eqb str_eqb_eq). Qed.
+Print Assumptions C12_scc_run_total.
+
+(* Hence: the set of components does not depend on the iteration order of set(edges) nor on
+   the order of the adjacency lists (list(set(dependencies))). *)
+Theorem C12_scc_partition_perm_invariant :
   forall E E' vo vo' out out',
     graph_equiv (isvertex E) (isvertex E') (edge str_eqb E) (edge str_eqb E') ->
+    (forall k, In k (keys E) -> In k vo) -> (forall k, In k (keys E') -> In k vo') ->
     s_scc_run vo E = Ok out -> s_scc_run vo' E' = Ok out' ->
-    s_scc_check E out = true -> s_scc_check E' out' = true ->
     partition_equiv out out'.
-Proof. exact (scc_checked_outputs_agree str_eqb str_eqb_eq). Qed.
-Print Assumptions C12_scc_partition_perm_invariant_partial.
+Proof. exact (scc_partition_perm_invariant str_eqb str_eqb_eq). Qed.
+Print Assumptions C12_scc_partition_perm_invariant.
 
 (* 2. toposort_flatten(sort=True): same dict of sets => same list, same exception *)
 Theorem C12_toposort_flatten_perm_invariant :
